@@ -29,13 +29,45 @@ structure Side (ts : TState) : Prop where
   /-- a task runs on a worker of its own size-class queue -/
   wq : ∀ k t q w, alookup k ts.s.tasks = some t → t.worker = some (q, w) → q = t.scq
 
-/-- the invariant of the tree layer (with `Sched`'s exemption sets and the tree's exemption list) -/
+/-- The facts about tasks and workers that the tree layer relies on: a fragment of `SchedInv.Core` and
+`SchedInv.OInv` that does not mention the operation table, the event log or the exemption sets (so that it
+also holds at the intermediate states of `task.complete` / `operation.remove`). -/
+structure MCore (s : State) : Prop where
+  tnd : (keys s.tasks).Nodup
+  p2 : ∀ k t q w, alookup k s.tasks = some t → t.worker = some (q, w) →
+        ∃ wk, wfind s.workers q w = some wk ∧ wk.task = some k
+  p3 : ∀ k t, alookup k s.tasks = some t → t.worker.isSome = true → t.response = none
+  q1 : ∀ k t, alookup k s.tasks = some t → t.queued = true → t.worker = none ∧ t.response = none
+  w1 : ∀ q w wk, wfind s.workers q w = some wk → wk.parked = true → wk.task = none
+
+structure MOInv (s : State) : Prop where
+  o3 : ∀ k t, alookup k s.tasks = some t → t.ops.Nodup ∧ t.ops ≠ []
+
+structure MInv (s : State) : Prop where
+  core : MCore s
+  oinv : MOInv s
+
+theorem MInv.of_inv {ex exo} {s : State} (h : InvX ex exo s) : MInv s :=
+  ⟨⟨h.core.tnd, h.core.p2, h.core.p3, h.core.q1, fun q w wk a b => (h.core.w1 q w wk a b).1⟩, ⟨h.oinv.o3⟩⟩
+
+/-- `MInv` only looks at tasks and workers -/
+theorem MInv.of_eq {s s' : State} (h : MInv s) (ht : s'.tasks = s.tasks) (hw : s'.workers = s.workers) : MInv s' := by
+  obtain ⟨⟨a, b, c, d, e⟩, ⟨f⟩⟩ := h
+  exact ⟨⟨by rw [ht]; exact a, by rw [ht, hw]; exact b, by rw [ht]; exact c, by rw [ht]; exact d, by rw [hw]; exact e⟩,
+    ⟨by rw [ht]; exact f⟩⟩
+
+/-- the invariant of the tree layer at a (possibly intermediate) state; `X` = invocations that may still be
+empty.  (`ex`, `exo` are not used any more; they are kept so that statements need not change.) -/
 structure TInvX (ex exo : Nat → Prop) (X : List (ScqId × List Nat)) (ts : TState) : Prop where
-  inv : InvX ex exo ts.s
+  inv : MInv ts.s
   tree : TreeOK X ts.nodes (bagE ts) (bagI ts) (bagQ ts) (bagP ts)
   side : Side ts
 
-abbrev TInv (ts : TState) : Prop := TInvX (fun _ => False) (fun _ => False) [] ts
+/-- the invariant of the tree layer between segments -/
+structure TInv (ts : TState) : Prop where
+  inv : Inv ts.s
+  tree : TreeOK [] ts.nodes (bagE ts) (bagI ts) (bagQ ts) (bagP ts)
+  side : Side ts
 
 /-- the part of the invariant that is about the tree layer's own tables -/
 structure TS (X : List (ScqId × List Nat)) (ts : TState) : Prop where
@@ -43,7 +75,9 @@ structure TS (X : List (ScqId × List Nat)) (ts : TState) : Prop where
   side : Side ts
 
 theorem TInvX.ts {ex exo X ts} (h : TInvX ex exo X ts) : TS X ts := ⟨h.tree, h.side⟩
-theorem TInvX.mk' {ex exo X ts} (hi : InvX ex exo ts.s) (h : TS X ts) : TInvX ex exo X ts := ⟨hi, h.tree, h.side⟩
+theorem TInvX.mk' {ex exo X ts} (hi : MInv ts.s) (h : TS X ts) : TInvX ex exo X ts := ⟨hi, h.tree, h.side⟩
+theorem TInv.ts {ts} (h : TInv ts) : TS [] ts := ⟨h.tree, h.side⟩
+theorem TInv.x {ts} (h : TInv ts) : TInvX (fun _ => False) (fun _ => False) [] ts := ⟨MInv.of_inv h.inv, h.tree, h.side⟩
 
 /-! ### replacing one entry of an association list -/
 
